@@ -99,6 +99,14 @@ func (t *Tracer) walk(v ssa.Value, suffix string, depth int, seen map[ssa.Value]
 			t.walk(ta.X, ".("+typeName(ta.AssertedType)+")"+suffix, depth+1, seen, out)
 			return
 		}
+		if lk, ok := x.Tuple.(*ssa.Lookup); ok {
+			if x.Index == 0 {
+				t.walk(lk.X, "[key]"+suffix, depth+1, seen, out)
+			} else {
+				emit("?ok")
+			}
+			return
+		}
 		if _, ok := x.Tuple.(*ssa.Next); ok {
 			emit("?range" + "#" + strconv.Itoa(x.Index))
 			return
